@@ -17,6 +17,23 @@ NUMPY = (
 )
 SKELETONS = {"rest": REST, "google": GOOGLE, "numpydoc": NUMPY}
 
+# further shapes named by the properties: no return entry + footer, footer with notes/doctest lines, sections without bodies
+REST_NORET = "Header line.\n\n:param a: desc a\n:type a: ```int```\n\nFooterprose notes.\n\n>>> f(1)\n2"
+REST_DEFAULT_NORET = "Header line.\n\n:param a: desc a. Defaults to 5\n:type a: ```int```\n\nFooterprose notes."
+GOOGLE_FOOT = "Header line.\n\nArgs:\n  a (int): desc a\n\nFooterprose notes.\n"
+NUMPY_FOOT = "Header line.\n\nParameters\n----------\na : int\n    desc a\n\nFooterprose notes.\n"
+EXTRA_SKELETONS = {"rest_noret": REST_NORET, "rest_default_noret": REST_DEFAULT_NORET, "google_foot": GOOGLE_FOOT, "numpy_foot": NUMPY_FOOT}
+EDGE_SKELETONS = {  # section headers without bodies, blank line right under a NumPy underline, truncated tokens
+    "numpy_empty_section": "Header.\n\nParameters\n----------\n",
+    "numpy_blank_after_underline": "Header.\n\nParameters\n----------\n\na : int\n    desc a\n",
+    "numpy_returns_empty": "Header.\n\nParameters\n----------\na : int\n    desc a\n\nReturns\n-------\n",
+    "google_empty_args": "Header.\n\nArgs:\n",
+    "google_returns_empty": "Header.\n\nArgs:\n  a (int): desc a\n\nReturns:\n",
+    "rest_param_only_token": "Header.\n\n:param",
+    "rest_empty_fields": "Header.\n\n:param a:\n:type a:\n:return:\n:rtype:",
+    "blank_first_line": "\n   \nHeader.\n\n:param a: desc a\n",
+}
+
 
 def indented(doc, n):
     """the docstring as it sits in source at `n` columns: every line but the first is indented"""
